@@ -862,10 +862,19 @@ impl Parser for BlockStatement {
 impl Parser for Statement {
     fn parse<'a>(this: Option<&Self>, input: TokenStream<'a>) -> IResult<'a, Self> {
         fn parse_error(input: TokenStream) -> IResult<Statement> {
+            // If nothing can be skipped, fail without consuming the leading comments:
+            // they belong to whatever follows (e.g. the next global declaration).
+            let original_input = input.clone();
             let (input, ((_, ignored), mut info)) = info(tuple((
                 many0(comment),
                 ignore_until1(peek(look_ahead::stmt)),
-            )))(input)?;
+            )))(input)
+            .map_err(|err| {
+                err.map(|err| ParserError {
+                    input: original_input.clone(),
+                    ..err
+                })
+            })?;
             let err = SplError(
                 info.to_range(),
                 ParseErrorMessage::UnexpectedCharacters(
